@@ -32,6 +32,7 @@ type Prog struct {
 	storesDone   map[*ssa.Function]bool
 	valID        map[ssa.Value]int
 	helperMemo   map[string]bool
+	frozen       map[*types.Var]bool
 	NPkgs        int
 }
 
